@@ -47,6 +47,7 @@ def dispatch (op : String) (args : List String) (impl : String) : Answer :=
   | "IX.exec" => ixExec args impl
   | "IX.total" => ixTotal impl
   | "IX.dbg" => ixDbg args impl
+  | "C04.mut" => c04Mut args impl
   | _ => ("unknown-op", "n/a")
 
 partial def loop (h : IO.FS.Stream) (out : IO.FS.Stream) : IO Unit := do
